@@ -38,7 +38,7 @@ func runDeps(inp input, scratch string) core.Result {
 	}
 	alts, other := 0, 0
 	for _, o := range sr.calls {
-		v := oracle(o)
+		v := oracle(o, false)
 		if o.Outcome == "missing" {
 			v = append(v, "harness: no outcome for "+o.Key+" "+o.Detail)
 		}
@@ -60,7 +60,7 @@ func runDeps(inp input, scratch string) core.Result {
 		res.GoViolations = append(res.GoViolations[:12], fmt.Sprintf("... and %d more", len(res.GoViolations)-12))
 	}
 	if len(res.GoViolations) > 0 {
-		res.Class = failureClass(sr.calls)
+		res.Class = failureClass(sr.calls, false)
 	}
 	res.Observed = obs
 	// the sweep is decided on the Go side; an empty Coq case keeps the case files uniform
